@@ -431,6 +431,14 @@ def corpus(cfgs):
         m = q.maxsmall
         cs.append(("corpus-two-pools-" + q.name, [q.line, "a 0 24 ok", "pool 1", "a 1 24 ok", "a 2 %d ok" % (m + 1), "pool 0", "a 3 %d ok" % (m + 1), "v",
                                                   "pool 1", "v", "f 1", "f 2", "pool 0", "f 0", "f 3", "v"]))
+    # seeded miss (C04-r8-3): slab_allocator::reallocate freed the source block when pool_->realloc failed.  Growing
+    # reallocate on the copying path with map() failing, through the wrapper (`wrap`), small and large source
+    for q in cfgs:
+        m = q.maxsmall
+        cs.append(("corpus-wrapper-realloc-fails-" + q.name, [q.line, "wrap", "a 0 24 ok", "w 0 0 24 7", "a 1 %d ok" % (m + 1), "w 1 0 %d 9" % (m + 1),
+                                                              "r 0 %d fail" % (m + 5), "c 0 0 24", "g 0", "v", "r 1 %d fail" % (3 * q.sb), "c 1 0 24", "g 1", "v",
+                                                              "a 2 24 ok", "a 3 %d ok" % (m + 1), "v", "r 0 %d ok" % (m + 5), "r 1 %d ok" % (3 * q.sb), "c 0 0 24", "c 1 0 24",
+                                                              "f 0", "d 1 %d" % (3 * q.sb), "f 2", "f 3", "v"]))
     for q in cfgs:
         cs.append(("corpus-sizeclasses-" + q.name, [q.line, "sc"]))
         cs.append(("corpus-first-map-fails-" + q.name, [q.line, "a 0 24 fail", "a 1 24 ok", "a 2 %d fail" % (q.maxsmall + 1), "a 3 %d ok" % (q.maxsmall + 1),
